@@ -1043,6 +1043,7 @@ fn p06(p: &mut ProbeReport, r: &mut Rng, budget: usize) {
 fn p07(p: &mut ProbeReport, r: &mut Rng, budget: usize) {
     compaction_stress(p, r, "C07", if budget > 5000 { 12 } else { 2 });
     big_store_orders(p, "C07");
+    neighbour_locality(p, r, if budget > 5000 { 6000 } else { 700 });
     lived_in_exhaustive(p, "C07", if budget > 5000 { 7 } else { 6 });
     lived_in_store(p, r, if budget > 5000 { 6000 } else { 600 }, "C07");
     let budget = budget + p.evaluations;
@@ -1299,6 +1300,22 @@ fn p10(p: &mut ProbeReport, r: &mut Rng, budget: usize) {
         }
         p.notes.insert("exhaustive_sequences".into(), total);
         p.notes.insert("exhaustive_max_len".into(), maxlen);
+    }
+    // many more candidates than the cap keeps, most of them tied on shared grams: asked under one limit, then under
+    // another (smaller, or less than twice as large): the answer must be the one a fresh store gives under that limit
+    for (l1, l2) in [(2usize, 3usize), (4, 5), (3, 2), (1, 3)] {
+        let recs: Vec<(usize, String, usize)> = (0..120).map(|i| (100 + i, if i % 2 == 0 { format!("metal {}", (b'a' + (i % 26) as u8) as char) } else { format!("mini {}{}", (b'a' + (i % 26) as u8) as char, i) }, 1000 + (i * 37) % 500 + i)).collect();
+        let mut st = Scn { lang: "none".into(), recs: recs.clone(), limit: l1 }.build();
+        let markers = ("[".to_string(), "]".to_string());
+        let mut ops = vec![Op::Limit(l1), Op::Search("me".into()), Op::Search("mi".into()), Op::Limit(l2)];
+        let _ = search_results(&st, "me"); let _ = search_results(&st, "mi");
+        st.limit = l2;
+        for q in ["me", "m", "mini", "metal "] {
+            ops.push(Op::Search(q.to_string()));
+            let (got, want) = (search_results(&st, q), fresh_thread_search("none", &recs, l2, &markers, q));
+            p.eval(&format!("cap-history|{}|{}|{}", l1, l2, q), true);
+            if got != want { p.fail(format!("120 records, searched under limit {}, then under limit {}: query {:?} returns {:?} but a freshly built store returns {:?}", l1, l2, q, ids(&got), ids(&want)), Scn { lang: "none".into(), recs: recs.clone(), limit: l1 }.case("c10-cap-history", ops.clone())); break; }
+        }
     }
     // hits that tie on every score component (same rating, same shape of title): their order in a lived-in store must
     // be the order a fresh store gives, whatever was asked before
@@ -1936,6 +1953,20 @@ fn check_prepare(p: &mut ProbeReport, st: &Store, lang: &core::Lang, code: &str,
 }
 
 fn p18(p: &mut ProbeReport, r: &mut Rng, budget: usize) {
+    // many more sharing records than the cap keeps (22 … 70 for sizes 1 and 2), their shared-gram counts all different
+    // from their neighbours' and in random order: whatever the bounded selection keeps between compactions, nothing
+    // omitted may share more grams than something listed
+    for round in 0..(if budget > 5000 { 3000 } else { 300 }) {
+        let lang = make_lang("none");
+        let size = 1 + round % 2;
+        let n = r.range(20 * size + 2, 35 * size);
+        let base: Vec<char> = "abcdefgh".chars().collect();
+        let recs: Vec<(usize, String, usize)> = (0..n).map(|i| (i + 1, base[..r.range(1, 8)].iter().collect::<String>(), 10 + i)).collect();
+        let st = Scn { lang: "none".into(), recs: recs.clone(), limit: 10 }.build();
+        let mut hist: Vec<Op> = vec![Op::New];
+        for (id, t, rt) in &recs { hist.push(Op::Add(*id, *rt, t.clone())); }
+        if !check_prepare(p, &st, &lang, "none", &recs, "abcdefgh", size, &hist) { return; }
+    }
     // more than 255 shared grams per record (a one-byte counter would saturate or wrap): twelve records holding the
     // first 20 … 23 words of a 24-word text (about 16 grams per word), asked for the whole text at size 1
     {
@@ -2158,6 +2189,22 @@ fn p20(p: &mut ProbeReport, r: &mut Rng, budget: usize) {
             }
         }
         p.notes.insert("exhaustive_sequences".into(), total);
+    }
+    // six live ids: one is searched, then changed (add / limit / markers), then the five others are searched in turn;
+    // every buffer is compared with its own stand-alone store after every call (a bounded pool of "warm" buffers that
+    // rebuilds evicted ones from the current state would show here)
+    for (k, change) in [0usize, 1, 2].iter().enumerate() {
+        let base = 930_000 + 10 * k;
+        let mut ops: Vec<Op> = vec![];
+        for j in 0..6 { ops.push(Op::RCreate(base + j, "none".into())); ops.push(Op::RAdd(base + j, 1, 50, "pink mug".into())); ops.push(Op::RAdd(base + j, 2, 40, format!("pink cup {}", j))); }
+        for j in 0..6 { ops.push(Op::RSearch(base + j, "pink".into())); }
+        match change { 0 => ops.push(Op::RAdd(base, 3, 60, "pink pot".into())), 1 => ops.push(Op::RLimit(base, 1)), _ => ops.push(Op::RMarkers(base, "<".into(), ">".into())) }
+        for j in 1..6 { ops.push(Op::RSearch(base + j, "pin".into())); }
+        ops.push(Op::RResults(base));
+        for j in 1..6 { ops.push(Op::RSearch(base + j, "pink".into())); ops.push(Op::RSearch(base + j, "mug".into())); }
+        ops.push(Op::RResults(base));
+        let case = Case { name: "c20-six-ids".into(), lang: "none".into(), stream: "probe", ops };
+        if !reg_case_against_shadows(p, &case, &format!("six{}", k)) && p.failures.len() >= 4 { break; }
     }
     // two ids whose stores each hold more records sharing a gram than ten times the limit, asked in turn (scratch that
     // is shared between indices but stamped per index would let one id's counters decide the other's candidate cut);
